@@ -545,3 +545,90 @@ _reg_body_lexer(6, False, "eol", "quick")
 _reg_body_lexer(16, True, "token", "thorough")
 _reg_body_lexer(5, False, "token", "thorough")
 _reg_body_lexer(12, True, "comment", "thorough")
+
+
+@obligation("C09/lexers-run-over-the-callers-text", profiles=("dev",),
+            desc="ParsedTestCase::parse, HeaderParser::new, Parser::new: the string handed to the lexers (and kept for slicing "
+                 "token texts) is the caller's text itself - not a trimmed, normalised or re-assembled copy - so every token "
+                 "boundary, and with it every error location, is an offset into the text the caller has")
+def lexers_run_over_callers_text(O):
+    from ..itermodels import str_id, _str_node
+    from .common import initial
+    m = O.mir
+    targets = [("::parse", dict(file="parsed_test_case.rs"), r"HeaderParser::new$"),
+               ("::new", dict(file="parser/mod.rs", param0="&str", nparams=1), r"Logos>::lexer$|::lexer$"),
+]
+    for suffix, kw, rx in targets:
+        fn = O.find(suffix, **kw)
+        eng = O.engine()
+        eng.keep_events(r"HeaderParser::new$", r"HeaderParser::parse$", r"Parser::from$", r"parse_stmt_block$", r"Parser::finish$",
+                        r"TokenIter::new$", r"lexer$", r"spanned$")
+        paths = O.explore(eng, fn)
+        n = 0
+        for p in paths:
+            eng.focus(p)
+            if p.outcome == "panic":
+                O.fail_path(p, "%s panics: %s" % (sym_short(fn), p.detail), {"site": sym_short(fn)}, bom_scenarios(), parse_judge_total)
+                continue
+            if p.outcome != "return":
+                continue
+            evs = p.calls(rx)
+            if not evs:
+                # every accepted way through must hand the text on
+                O.fail_path(p, "%s does not hand its text to %s" % (sym_short(fn), rx), {"site": sym_short(fn)}, bom_scenarios(), parse_judge_total)
+                continue
+            n += 1
+            want = str_id(eng, _str_node(eng, initial(fn, 1)))
+            try:
+                got = str_id(eng, _str_node(eng, evs[0].args[0]))
+            except Exception:
+                got = None
+            if got is None:
+                O.fail_path(p, "%s hands something that is not a string on" % sym_short(fn), {"site": sym_short(fn)}, bom_scenarios(), parse_judge_total)
+                continue
+            O.prove(p, got == want, "%s lexes the caller's text itself" % sym_short(fn), {"site": sym_short(fn), "what": "text identity"},
+                    bom_scenarios(), parse_judge_total)
+        if n == 0:
+            O.inconclusive("vacuous: %s never reaches %s" % (sym_short(fn), rx))
+        if suffix == "::new":
+            # the parser keeps the same text for slicing token texts (HeaderParser.input, handed on by Parser::from)
+            for p in paths:
+                if p.outcome != "return":
+                    continue
+                eng.focus(p)
+                kept = eng.field(p.ret, m.fidx("HeaderParser", "input"))
+                O.prove(p, str_id(eng, _str_node(eng, kept)) == str_id(eng, _str_node(eng, initial(fn, 1))),
+                        "HeaderParser keeps the caller's text", {"site": "HeaderParser::new", "what": "text identity"},
+                        bom_scenarios(), parse_judge_total)
+    fn = O.find("::from", file="parser/mod.rs", param0="HeaderParser")
+    eng = O.engine()
+    paths = O.explore(eng, fn)
+    n = 0
+    for p in paths:
+        if p.outcome != "return":
+            continue
+        eng.focus(p)
+        n += 1
+        src = eng.field(p.args.fields[1], m.fidx("HeaderParser", "input"))
+        kept = eng.field(p.ret, m.fidx("Parser", "input"))
+        O.prove(p, str_id(eng, _str_node(eng, kept)) == str_id(eng, _str_node(eng, src)),
+                "Parser::from keeps the header parser's text", {"site": "Parser::from", "what": "text identity"},
+                bom_scenarios(), parse_judge_total)
+    if n == 0:
+        O.inconclusive("vacuous: Parser::from does not return")
+
+
+def sym_short(fn):
+    from ..sym import short_name
+    return short_name(fn.name).split("::")[-3:] and "::".join(short_name(fn.name).split("::")[-2:])
+
+
+def bom_scenarios():
+    """texts with a byte-order mark / leading or trailing blanks / unusual characters whose errors must be located in the text as given"""
+    out = []
+    for pre in ("﻿", "﻿﻿", " ﻿", " ", "\t \t", "\r\n\r\n"):
+        for src in ("A A\n0 0\n", "A B\n0 $\n", "A B\n0\n", "A B\nlet x = ;\n", "A B\n1 1\nend loop\n", "A B C\n1 1\n"):
+            out.append(Scenario(pre + src, [], mode="parse", render=True, note="text starting with %r, error in %r" % (pre, src)))
+    for post in ("﻿", " \t", "\n\n﻿"):
+        out.append(Scenario("A B\n0 $" + post, [], mode="parse", render=True, note="text ending with %r" % post))
+    return out
